@@ -84,6 +84,12 @@ PARSE_ASSUME = [
     "byte-level reading of the WHATWG algorithm (values are raw bytes; invalid UTF-8 passes through)",
 ]
 
+PARSE_FACTS = {
+    "const:maxFieldNameLength": lambda v: v.isdigit() and int(v) >= 5,   # "retry"/"event" must fit
+    "const:FieldNameData": "data", "const:FieldNameEvent": "event", "const:FieldNameRetry": "retry",
+    "const:FieldNameID": "id", "bom": "efbbbf",
+}
+
 PROPS = {}
 
 PROPS["C01"] = {
@@ -95,6 +101,7 @@ PROPS["C01"] = {
             "buffer configuration x early stop; non-trivial = at least one event or a non-nil end condition; distinct by case line",
     "hist": hist_parse,
     "assumptions": PARSE_ASSUME,
+    "facts": PARSE_FACTS,
 }
 
 PROPS["C20"] = {
@@ -107,6 +114,7 @@ PROPS["C20"] = {
             "reader; non-trivial = an event or an error was reported; distinct by case line",
     "hist": hist_parse,
     "assumptions": PARSE_ASSUME,
+    "facts": PARSE_FACTS,
 }
 
 HOOK_COMMITS = ["3043224"]
